@@ -24,7 +24,7 @@ mod real {
             tick_global(&format!("Active op sequence so far {:?}, next op kind {}", ops, kind));
             let idx = |rng: &mut Rng, len: u64| -> u64 { if rng.below(8) == 0 { len + rng.below(3) } else { rng.below(len.max(1)) } };
             let (op, res): (Vec<i128>, Vec<i128>) = match kind {
-                0 => { len = if rng.below(6) == 0 { rng.range(60, if thorough { 200 } else { 140 }) } else { rng.below(if thorough { 24 } else { 12 }) }; a.reset(len as usize); (vec![0, len as i128], vec![0]) }
+                0 => { len = match rng.below(12) { 0 => rng.range(60, if thorough { 200 } else { 140 }), 1 => [63u64, 64, 65, 127, 128, 129, 192][rng.below(if thorough { 7 } else { 6 }) as usize], _ => rng.below(if thorough { 24 } else { 12 }) }; a.reset(len as usize); (vec![0, len as i128], vec![0]) }
                 1..=4 => { let i = idx(rng, len); (vec![1, i as i128], pk(catch(|| { a.remove(i as usize); vec![0] }))) }
                 5 | 6 => { let i = idx(rng, len); (vec![2, i as i128], pk(catch(|| vec![0, a.contains(i as usize) as i128]))) }
                 7 | 8 => (vec![3], pk(catch(|| { let mut v = vec![0]; v.extend(a.iter().map(|x| x as i128)); v }))),
